@@ -11,6 +11,8 @@ import Tahoe.Immutable.NodeQueue
     `lit HEX OFF SIZE`          → LiteralFileNode.read
     `ctr OFF KSHEX CTHEX`       → DecryptingConsumer(·, key, OFF).write(CT), KS = keystream from position 0
     `clip FILESIZE OFF SIZE`    → the clipped size of DownloadNode.read
+    `feedall SEG CTHEX OFF+SIZE,… I:S,…` → m readers started for the ranges, handed segment S (of ciphertext CT, segment size SEG)
+                                  in the order of the events (reader I gets segment S): final `offset,size,OUTHEX` per reader, `;`-joined
     `queue OP OP …` (g:SEGNUM:HANDLE | d | c:HANDLE) → after each op `ACTIVE|seg.handle,…|delivered handles`, joined by `;` -/
 open Tahoe.Drv Tahoe.Immutable Tahoe.Immutable.Sizes Tahoe.Immutable.Pipeline
 
@@ -46,7 +48,19 @@ def runQueue (nd : Node) (acc : List String) : List String → Option (List Stri
         runQueue nd' (showNode nd' [] :: acc) rest
     | _ => none
 
+def parsePairs (s : String) (sep : String) : Option (List (Nat × Nat)) :=
+  if s == "-" then some [] else
+  (s.splitOn ",").mapM (fun p => match p.splitOn sep with
+    | [a, b] => do pure ((← a.toNat?), (← b.toNat?))
+    | _ => none)
+
 def handle : List String → String
+  | ["feedall", seg, cthex, ranges, events] =>
+    match seg.toNat?, bytesOfHex cthex, parsePairs ranges "+", parsePairs events ":" with
+    | some seg, some ct, some ranges, some events =>
+      let start := ranges.map (fun r => ({ offset := r.1, size := r.2, out := [] } : ReaderState))
+      ";".intercalate ((feedAll ct seg start events).map (fun st => s!"{st.offset},{st.size},{hexOfBytes st.out}"))
+    | _, _, _, _ => "bad-op"
   | "queue" :: ops =>
     match runQueue NodeQueue.empty [] ops with
     | some outs => ";".intercalate outs
